@@ -100,6 +100,45 @@ def write_sites():
                 elif kind is None:
                     ob(oid, 'refuted', '%s in %s: a rendering stores a value on an object that is shared by all renderings of the template '
                                        '(compiled tag / template); such a write is neither confined to the rendering nor made under the compile lock' % (text, qual))
+    # writes to module-level mutable state from render-time functions (functions and methods alike): a cache, registry or
+    # counter at module level is shared by ALL templates and all renderings, so what one template compiles or renders
+    # would depend on what others did before (C17 determinism, C01/C07 per-class compilation, C18 confinement)
+    MUT = ('append', 'extend', 'update', 'pop', 'clear', 'insert', 'remove', 'sort', 'reverse', 'setdefault', 'add', 'discard', 'popitem')
+    scan = dict(RENDER_TIME)
+    scan['DT_HTML'] = ('DocumentTemplate/DT_HTML.py', None)
+    scan['TreeTag'] = ('TreeDisplay/TreeTag.py', None)
+    for m, (rel, names) in scan.items():
+        names = None        # every function of these modules: compile time counts too (a parse cache is shared state as well)
+        tree = ast.parse(open(os.path.join(REPO_SRC, rel)).read())
+        globs = set()
+        for st in tree.body:
+            if isinstance(st, (ast.Assign, ast.AnnAssign)):
+                for t in (st.targets if isinstance(st, ast.Assign) else [st.target]):
+                    if isinstance(t, ast.Name):
+                        globs.add(t.id)
+        for fn in [x for x in ast.walk(tree) if isinstance(x, ast.FunctionDef)]:
+            if names is not None and fn.name not in names:
+                continue
+            cls = _class_of(tree, fn)
+            qual = '%s.%s' % (cls, fn.name) if cls else fn.name
+            local = {a.arg for a in fn.args.args + fn.args.kwonlyargs} | {
+                n_.id for n_ in ast.walk(fn) if isinstance(n_, ast.Name) and isinstance(n_.ctx, ast.Store)}
+            declared_global = {g for st in ast.walk(fn) if isinstance(st, ast.Global) for g in st.names}
+            hits = []
+            for st in ast.walk(fn):
+                if isinstance(st, ast.Subscript) and isinstance(st.ctx, (ast.Store, ast.Del)) and isinstance(st.value, ast.Name) \
+                        and st.value.id in globs and st.value.id not in local:
+                    hits.append('%s[...]' % st.value.id)
+                elif isinstance(st, ast.Call) and isinstance(st.func, ast.Attribute) and st.func.attr in MUT \
+                        and isinstance(st.func.value, ast.Name) and st.func.value.id in globs and st.func.value.id not in local:
+                    hits.append('%s.%s()' % (st.func.value.id, st.func.attr))
+                elif isinstance(st, ast.Name) and isinstance(st.ctx, ast.Store) and st.id in declared_global:
+                    hits.append('global %s' % st.id)
+            for text in sorted(set(hits)):
+                n += 1
+                ob('%s.%s.%s' % (m, qual, text.replace(' ', '_')), 'refuted',
+                   '%s in %s: a render-time / compile-time function of a template writes module-level state, which is shared by every '
+                   'template of the process: results would depend on what other templates did before' % (text, qual))
     out.append(dict(oid='frame.write.sites_enumerated', kind='structural', status='discharged' if n >= 10 else 'undecided', paths=1,
                     backends=['ast'], ms=0, model=None, detail='%d write sites in render-time functions' % n, havoced=False))
     return out
